@@ -230,8 +230,10 @@ def run_driver(model, lines, timeout=600, args=()):
 # helpers for implementations under test
 # ---------------------------------------------------------------------------------------------------------------------
 
-class Timeout(Exception):
-    pass
+class Timeout(KeyboardInterrupt):
+    """raised by the watchdog of call_with_alarm.  A subclass of KeyboardInterrupt on purpose: the implementation runners
+    turn every exception of an operation into an observation (`err <name>`) except KeyboardInterrupt / SystemExit, so a
+    watchdog that fires aborts the whole case instead of being recorded for one operation after the other"""
 
 
 def call_with_alarm(fn, seconds=2.0):
